@@ -40,7 +40,7 @@ def kind_of(t):
     if isinstance(t, dict):
         if '$t' in t:
             return 'tuple'
-        if len(t) == 1 and next(iter(t)) in ('$Dict', '$dictattr'):
+        if len(t) == 1 and next(iter(t)) in ('$Dict', '$dictattr', '$idict'):
             return next(iter(t))
         return 'dict'
     return 'leaf'
@@ -57,6 +57,9 @@ def children(t):
     if k in ('$Dict', '$dictattr'):
         b = t[k]
         return list(b.keys()), [b[x] for x in b]
+    if k == '$idict':
+        b = t[k]
+        return [int(x) for x in b], [b[x] for x in b]
     return None, None
 
 
@@ -68,7 +71,7 @@ def rebuild(t, vals):
         return {'$t': list(vals)}
     if k == 'dict':
         return dict(zip(t.keys(), vals))
-    return {k: dict(zip(t[k].keys(), vals))}
+    return {k: dict(zip(t[k].keys(), vals))}          # ('$idict' keeps its string spellings of the int keys)
 
 
 def gen_shape(rng, depth, leaf, maxd):
@@ -76,11 +79,14 @@ def gen_shape(rng, depth, leaf, maxd):
     if depth >= maxd or (depth > 0 and r < 0.35):
         return leaf()
     n = rng.randint(0 if depth > 0 else 1, 4)
-    k = rng.choice(['list', 'list', 'tuple', 'dict', 'dict', '$Dict', '$dictattr'])
+    k = rng.choice(['list', 'list', 'tuple', 'dict', 'dict', '$Dict', '$dictattr', '$idict'])
     if k == 'list':
         return [gen_shape(rng, depth + 1, leaf, maxd) for _ in range(n)]
     if k == 'tuple':
         return {'$t': [gen_shape(rng, depth + 1, leaf, maxd) for _ in range(n)]}
+    if k == '$idict':
+        # integer keys whose numeric order is not the order of their text (2 < 10 but '10' < '2')
+        return {k: {str(key): gen_shape(rng, depth + 1, leaf, maxd) for key in rng.sample([2, 10, 9, 100, -1, -2, 21], n)}}
     body = {key: gen_shape(rng, depth + 1, leaf, maxd) for key in rng.sample(['a', 'b', 'c', 'd', 'e'], n)}
     return body if k == 'dict' else {k: body}
 
@@ -98,11 +104,11 @@ def match(comp, x, key, pos):
     kx = kind_of(x)
     if kx in ('list', 'tuple'):
         n = len(children(x)[0])
-        if isinstance(comp, (list, tuple)) and len(comp) == n:
+        if isinstance(comp, (list, tuple, np.ndarray)) and len(comp) == n:
             return comp[pos]
         return comp
-    keys = sorted(children(x)[0])
-    if isinstance(comp, dict) and sorted(comp.keys()) == keys:
+    keys = children(x)[0]
+    if isinstance(comp, dict) and len(comp) == len(keys) and set(comp.keys()) == set(keys):
         return comp[key]
     return comp
 
@@ -193,6 +199,8 @@ def gen_companion(rng, x_term, kind):
             k = kind_of(t)
             if k in ('list', 'tuple'):
                 return vals if rng.random() < 0.7 else {'$t': vals}
+            if k == '$idict':
+                return {'$idict': {str(kk): vv for kk, vv in zip(ks, vals)}}
             return dict(zip(ks, vals))
         return rec(x_term)
     if kind == 'top_only':
@@ -200,6 +208,8 @@ def gen_companion(rng, x_term, kind):
         vals = [rng.choice([100, 200, 'm', None]) for _ in ks]
         if kind_of(x_term) in ('list', 'tuple'):
             return vals
+        if kind_of(x_term) == '$idict':
+            return {'$idict': {str(kk): vv for kk, vv in zip(ks, vals)}}
         return dict(zip(ks, vals))
     if kind == 'odd_list':
         return [rng.choice([7, 8, 'o']) for _ in range(7)]
@@ -207,6 +217,13 @@ def gen_companion(rng, x_term, kind):
         n = len(children(x_term)[0]) if kind_of(x_term) in ('list', 'tuple') else 2
         m = rng.choice([k_ for k_ in (0, 1, 3, 5, 7) if k_ != n])
         return {'$t': [rng.choice([7, 8, 'o']) for _ in range(m)]}
+    if kind == 'np_same_len':
+        # a numpy array as long as the looped list: matched element by element like a list, however it is passed
+        n = len(children(x_term)[0])
+        return {'$arr': ['int64', [10 * (i + 1) for i in range(n)]]}
+    if kind == 'square':
+        # a 7 x 7 nesting next to levels that are never 7 long: nothing in it matches any level, it is broadcast whole
+        return [[7 * i + j for j in range(7)] for i in range(7)]
     if kind == 'odd_dict':
         return {'zz1': 1, 'zz2': 'x'}
     if kind == 'dict_tied_list':
@@ -229,6 +246,9 @@ def gen_companion(rng, x_term, kind):
         if not levels:
             return {'zz1': 1}
         ks = list(rng.choice(levels))
+        if isinstance(ks[0], int):
+            ks[rng.randrange(len(ks))] = 777
+            return {'$idict': {str(k): rng.choice([31, 32, 'ov']) for k in ks}}
         ks[rng.randrange(len(ks))] = 'zq'
         return {k: rng.choice([31, 32, 'ov']) for k in ks}
     if kind == 'near_list':
@@ -250,6 +270,10 @@ def gen_lift_case(rng):
             k = 'scalar'
         if kind_of(x) in ('list', 'tuple') and len(children(x)[0]) >= 1 and rng.random() < 0.12:
             k = 'dict_tied_list'
+        elif kind_of(x) in ('list', 'tuple') and len(children(x)[0]) >= 2 and depth_of(x) == 1 and rng.random() < 0.15:
+            k = 'np_same_len'
+        elif rng.random() < 0.08:
+            k = 'square'
         if k == 'top_only':
             # top-level-only companions must not accidentally match deeper levels: their elements are scalars, fine
             pass
@@ -468,7 +492,7 @@ def run_waiter(case, ctx):
             if kk == 'tuple':
                 return tuple(vals)
             body = dict(zip(ks, vals))
-            if kk == 'dict':
+            if kk in ('dict', '$idict'):
                 return body
             import pyg_base
             return getattr(pyg_base, kk[1:])(body)
@@ -486,7 +510,7 @@ def run_waiter(case, ctx):
             if kk == 'tuple':
                 return tuple(vals)
             body = dict(zip(ks, vals))
-            if kk == 'dict':
+            if kk in ('dict', '$idict'):
                 return body
             import pyg_base
             return getattr(pyg_base, kk[1:])(body)
